@@ -134,6 +134,11 @@ func genExchange(t *rapid.T, lc labCfg) exchangeCase {
 		if ec.Req.Method != "HEAD" && r.Framing != "cl" && len(r.Parts) >= 2 && rapid.IntRange(0, 2).Draw(t, "stream") == 0 {
 			ec.Stream = true
 			r.BarrierAfter = 0
+			if rapid.Bool().Draw(t, "head-only") {
+				// the backend flushes only the response head and goes quiet: the head must arrive
+				r.BarrierAfter, r.BarrierAfterHead = -1, true
+				ec.labels = append(ec.labels, "streaming-head-only")
+			}
 			if rapid.Bool().Draw(t, "sse") {
 				r.Header = setHeader(r.Header, "Content-Type", "text/event-stream")
 			}
@@ -257,17 +262,25 @@ func runExchange(l *lab.SocketLab, lc labCfg, ec *exchangeCase, c *conn) string 
 	cc := c.cc
 	sendErr := make(chan error, 1)
 	go func() { sendErr <- cc.Send(&req) }()
-	out, resp, err := cc.ReadHead(req.Method, ioDeadline)
+	headDeadline := ioDeadline
+	if ec.Stream {
+		headDeadline = streamDeadline
+	}
+	out, resp, err := cc.ReadHead(req.Method, headDeadline)
 	if err != nil {
 		cc.Close()
 		c.cc = nil
 		if ec.Stream {
-			return fmt.Sprintf("streaming: backend sent the response head and flushed %d body bytes and is waiting, but the client received no response head within %v (%v): the proxy is buffering the response", script.Parts[0], ioDeadline, err)
+			return fmt.Sprintf("streaming: backend flushed the response head (head only: %v; first part %d bytes) and is waiting, but the client received no response head within %v (%v): the proxy is buffering the response", script.BarrierAfterHead, script.Parts[0], headDeadline, err)
 		}
 		return fmt.Sprintf("client could not read a response head: %v (interim seen %v)", err, out.Interim)
 	}
 	var prefix []byte
-	if ec.Stream {
+	if ec.Stream && script.BarrierAfterHead {
+		for _, ex := range exs {
+			lab.CloseBarrier(ex)
+		}
+	} else if ec.Stream {
 		_ = cc.C.SetReadDeadline(time.Now().Add(streamDeadline))
 		p, err := lab.ReadN(resp, script.Parts[0])
 		if err != nil {
